@@ -32,6 +32,7 @@ KEY_IDCASE = "clientid-entry-case-sensitive"
 KEY_MENTRY = "mapped-entry-never-matches"
 KEY_REGEXP = "regexp-rule-lowercased"
 KEY_EXCEPT = "exception-rule-blocks"
+KEY_FQDN = "fqdn-entry-inverted"
 SILENT = ("udp", "dnscrypt")
 
 
@@ -101,7 +102,14 @@ def _re_matches(shape, n, lowered):
     return False
 
 
-def _host_code(hosts, n, q, lowered=False, exc_blocks=False):
+LABELS = {"a": "ads", "b": "beta", "xa": "xads", "ar": "adsrv", "a1": "ads1"}
+
+
+def _text(n):
+    return ".".join(LABELS.get(x, x) for x in n)
+
+
+def _host_code(hosts, n, q, lowered=False, exc_blocks=False, fq_literal=False):
     def suffix(s, n):
         return len(s) <= len(n) and n[len(n) - len(s):] == s
 
@@ -118,6 +126,12 @@ def _host_code(hosts, n, q, lowered=False, exc_blocks=False):
                 excepted = True
             continue
         k, pn = p["k"], p["n"]
+        if fq_literal and p.get("fq") and k in ("exact", "wild"):
+            # The entry keeps its final dot and is compiled as a substring
+            # pattern over the text of the name (which has no final dot).
+            pat = ("." if k == "wild" else "") + _text(pn) + "."
+            must = must or pat in _text(n)
+            continue
         if k == "exact":
             hit = n == pn
         elif k == "domain":
@@ -160,7 +174,7 @@ def classify(rec):
             ex = _client_blocked(rec["conc"], rec["addr"], rec.get("id"),
                                  fix_case=KEY_IDCASE not in present, fix_mapped=KEY_MENTRY not in present)
             hv = _host_code(rec.get("hosts"), rec.get("name") or [], rec.get("qtype"), lowered=KEY_REGEXP in present,
-                            exc_blocks=KEY_EXCEPT in present)
+                            exc_blocks=KEY_EXCEPT in present, fq_literal=KEY_FQDN in present)
             return _predict(rec["level"], rec["proto"], bad_id, ex, hv)
 
         # Which of the three defects are still present in the tree under test is
@@ -171,7 +185,7 @@ def classify(rec):
         # Only defects listed as open can be present: a finding marked fixed is
         # repaired in /repo and must not be used to explain anything.
         kf = vlib.known_findings()
-        allk = tuple(k for k in (KEY_IDCASE, KEY_MENTRY, KEY_REGEXP, KEY_EXCEPT)
+        allk = tuple(k for k in (KEY_IDCASE, KEY_MENTRY, KEY_REGEXP, KEY_EXCEPT, KEY_FQDN)
                      if kf.get(("C03", k), {}).get("status") == "open")
         for size in range(len(allk), 0, -1):
             for base in itertools.combinations(allk, size):
@@ -201,6 +215,8 @@ WHAT = {
                 "verbatim, the ClientID of a request is always lower-cased): the disallowed client is served, the allowed one refused",
     KEY_MENTRY: "an entry written in IPv4-mapped IPv6 form (::ffff:a.b.c.d, ::ffff:a.b.c.0/120) matches no client, neither the "
                 "mapped nor the plain form of its address (clients are unmapped, entries are not)",
+    KEY_FQDN: "a blocked_hosts entry written with the final dot (\"ads.com.\", \"*.ads.com.\") keeps the dot and is compiled as a "
+              "substring pattern: the name itself and its subdomains are served, longer names that merely contain it are refused",
     KEY_EXCEPT: "an exception rule (@@||name^) of blocked_hosts acts as a blocking rule: isBlockedHost uses only the boolean of "
                 "MatchRequest, which is also true when the winning rule is an exception",
     KEY_REGEXP: "a /regexp/ rule of blocked_hosts is lower-cased as text: \\D, \\S, \\W change meaning, (?P<name>..) becomes "
@@ -349,6 +365,7 @@ def trace_disagreements(ctx, rows, verdict):
                               {"M" for e in st["allowed"] + st["disallowed"] if e["k"] != "id" and e["sp"] == "mapped"} |
                               {"R" for p in st["reported"]["hosts"] if p["k"] == "re"} |
                               {"X" for p in st["reported"]["hosts"] if p.get("wl")} |
+                              {"F" for p in st["reported"]["hosts"] if p.get("fq")} |
                               ({"B"} if r["areq"]["id"] == "~bad" else set())))
         sig = (r["lvl"], r["areq"]["form"], r["areq"]["proto"] in SILENT, r["out"], r.get("plain_out"),
                json.dumps(r.get("d"), sort_keys=True), trig)
